@@ -98,6 +98,22 @@ def tuple_component_sources(body, local_id):
     return None
 
 
+def window_only(e, inits, ct_ids, other, depth=6):
+    """e is Some(w) / w / min(w, _) where w mentions privilege_expiry() and now, and no other parameter of the function."""
+    e = unwrap(e)
+    if depth <= 0 or not isinstance(e, dict):
+        return False
+    if e.get("e") == "path" and e["res"].get("local") in inits:
+        return window_only(inits[e["res"]["local"]], inits, ct_ids, other, depth - 1)
+    if e.get("e") == "call" and def_of(e) == "core::option::Option::Some" and len(e.get("args", [])) == 1:
+        return window_only(e["args"][0], inits, ct_ids, other, depth - 1)
+    if e.get("e") in ("call", "mcall") and is_call_to(e, "cmp::min", "Ord::min"):
+        args = ([e["recv"]] if e.get("e") == "mcall" else []) + list(e.get("args", []))
+        return any(window_only(a, inits, ct_ids, other, depth - 1) for a in args)
+    ls = deep_locals(e, inits, 4)
+    return has_token(deep_tokens(e, inits, 4), "call", "privilege_expiry") and bool(ls & ct_ids) and not (ls & other)
+
+
 def run(ctx):
     F = ctx.facts
     ctx.explanation = ("Scope tables of token issue / re-issue / token-to-identity mapping match the specification; certificate and LDAP identities are "
@@ -216,6 +232,14 @@ def run(ctx):
                     guard_rw = s.has(True, lambda l: unwrap(l[2]).get("e") == "path" and "bool" in str([p["ty"] for p in fn["params"] if p["pat"].get("local") == unwrap(l[2])["res"].get("local")]), ("expr",))
                     ok = scopes == {"PrivilegeCapable"} and guard_rw and has_token(deep_tokens(x, inits, 4), "call", "privilege_expiry") and bool(deep_locals(x, inits, 4) & ct_ids)
                     why = "re-issue may open a privilege window only for PrivilegeCapable ∧ read_write, ending at now + privilege_expiry()"
+                    other = {p["pat"]["local"] for p in fn["params"] if p["pat"].get("p") == "bind"
+                             and not p["ty"].endswith("time::Duration") and "ResolvedAccountPolicy" not in p["ty"]}
+                    wok = window_only(x, inits, ct_ids, other)
+                    ctx.check(wok, "K4-uat-purpose", fn["fn"], "reissue-window-from-now-and-policy",
+                              "privilege window = f(now, privilege_expiry()) (other inputs only as a min() bound)",
+                              "the privilege window of a re-issued token depends on something other than the current time and the policy's privilege_expiry() "
+                              "(for example the session expiry) outside a min() clamp: one re-authentication can then keep write access for longer than the privilege window",
+                              file=fn["file"], line=s.line)
             elif v == "ReadWrite" and not some:
                 ok = scopes <= {"PrivilegeCapable"} and bool(scopes)
                 why = "ReadWrite{expiry: None} (privilege capable, currently read-only) only for SessionScope::PrivilegeCapable"
